@@ -824,7 +824,7 @@ fn run_c05(seed: u64, n: usize, out: &mut Out) {
                     .filter(|(vid, _)| !lz_vids.contains(vid))
                     .map(|(vid, p)| format!("{vid}.{p}"))
                     .collect();
-                format!("REQ:{}@CALLS:{}@SUP:T@OBS:T", req.join(";"), calls.join(","))
+                format!("REQ:{}@CALLS:{}@SUP:T@OBS:T@WF:T", req.join(";"), calls.join(","))
             }
         };
         out.count(match &o {
@@ -1025,9 +1025,60 @@ fn main() {
             run_c05(args.seed, args.n, &mut o);
             o.finish();
         }
+        "probe" => {
+            // tfh_hints probe --out <query-file> --seed S : one hand-written query on a seeded dataset
+            let text = std::fs::read_to_string(&args.out).expect("query file");
+            probe(&text, args.seed);
+        }
         other => {
             eprintln!("unknown subcommand {other}");
             std::process::exit(2);
         }
+    }
+}
+
+fn probe(text: &str, seed: u64) {
+    let schema = world::schema();
+    let indexed = trustfall_core::frontend::parse(&schema, text).expect("query must parse");
+    let mut rng = Rng::new(seed);
+    let dataset = gen_dataset(&mut rng, 6);
+    let c = EngineCase {
+        dataset,
+        query_text: text.to_string(),
+        indexed,
+        args: Arc::new(BTreeMap::new()),
+        features: Default::default(),
+        var_hints: Default::default(),
+    };
+    println!("IR: {}", irprint::query(&c.indexed.ir_query));
+    println!("DATASET: {}", c.dataset.to_coq());
+    println!("DATASET-JSON: {}", c.dataset.to_json());
+    let plain = run_impl(&c);
+    println!("PLAIN : {}", show_outcome(&plain));
+    let ad = Arc::new(HintAdapter::new(&c.dataset, c.indexed.clone(), Mode::Required));
+    let _ = run_with(ad.clone(), c.indexed.clone(), c.args.clone());
+    {
+        let st = ad.st.lock().unwrap();
+        println!("REQUIRED: {:?}", st.required);
+        let reqs: BTreeSet<(u64, String)> = st.requests.iter().cloned().collect();
+        println!("REQUESTS: {:?}", reqs);
+    }
+    let pr = Arc::new(HintAdapter::new(&c.dataset, c.indexed.clone(), Mode::Prune { skip_ge: false }));
+    let pruned = run_with(pr.clone(), c.indexed.clone(), c.args.clone());
+    println!("PRUNED: {} (dropped {})", show_outcome(&pruned), pr.st.lock().unwrap().dropped);
+    if let Outcome::Panic(m) = &pruned {
+        println!("PRUNED-PANIC: {m}");
+    }
+    let rec = Arc::new(HintAdapter::new(&c.dataset, c.indexed.clone(), Mode::Record));
+    let _ = run_with(rec.clone(), c.indexed.clone(), c.args.clone());
+    let st = rec.st.lock().unwrap();
+    for (k, v) in &st.infos {
+        println!("INFO {:?}: {}", k, v);
+    }
+    for (k, v) in &st.sites {
+        println!("SITE {:?}: {}", k, v.join(" | "));
+    }
+    for m in &st.stats.hint_panics {
+        println!("HINT-PANIC: {m}");
     }
 }
